@@ -14,7 +14,7 @@ def NOT_REPRODUCED(msg=''):
 
 
 import math, cmath
-a = Arc((-9.2-8.8j), (2+1j), 180.0, True, False, (-6.235294117647059-8.470588235294118j))
+a = Arc((-1.2-0.8j), (2+1j), 180.0, True, False, (1.2099146453199594+0.7962578965134783j))
 st, en, rot, fa, fs = a.start, a.end, a.rotation, a.large_arc, a.sweep
 rx0, ry0 = (2.0, 1.0)
 # independent F.6.5 / F.6.6
